@@ -501,6 +501,31 @@ def Built.matchIndices (b : Built) (name : Str) (rxHits : List Nat) : Option (Li
   (b.matchBits name rxHits).map fun bits =>
     ((List.range b.sets.size).zip bits).filterMap fun p => if p.2 then some p.1 else none
 
+/-- pack a bit list into 32-bit words, least significant bit first -/
+def packWords32 : Nat → List Bool → List Nat
+  | 0, _ => []
+  | fuel + 1, bits =>
+    match bits with
+    | [] => []
+    | _ => wordOfBits (bits.take 32) :: packWords32 fuel (bits.drop 32)
+
+/-- `MatchDomainBitmap` as the Go caller sees it: `[]uint32` of length `ceil(len(n.ac)/32)`,
+bit `i%32` of word `i/32` belongs to set `i`. -/
+def Built.matchBitmap (b : Built) (name : Str) (rxHits : List Nat) : Option (List Nat) :=
+  (b.matchBits name rxHits).map fun bits => packWords32 (bits.length + 1) bits
+
+/-- `AddSet` with Go's `int` index: a negative index is refused like one beyond the table. -/
+def Matcher.addSetInt (m : Matcher) (idx : Int) (kind : Kind) (pats : List Pat) : Matcher :=
+  if idx < 0 then (if m.err.isSome then m else { m with err := some .tooMany })
+  else m.addSet idx.toNat kind pats
+
+/-- a matcher that was never built: every index list is empty, the answer is all zeros -/
+def Built.unbuilt (n : Nat) : Built := ⟨Array.replicate n ⟨[], none, [], []⟩⟩
+
+/-- a second `Build` (API misuse, not reached by dae): `toBuildAc/toBuildTrie` were released, the trie and
+Aho-Corasick index lists are reset and nothing is rebuilt; only the regex index list is collected again. -/
+def Built.rebuild (b : Built) : Built := ⟨b.sets.map fun bs => { bs with keys := [], trie := none, ac := [] }⟩
+
 def Built.matchIndicesSpec (b : Built) (name : Str) (rxHits : List Nat) : List Nat :=
   let dom := normName name
   (List.range b.sets.size).filter fun i =>
@@ -510,6 +535,26 @@ def Built.matchIndicesSpec (b : Built) (name : Str) (rxHits : List Nat) : List N
 
 /-! ## 6. What the pattern kinds are documented to match -/
 
+def isMarker (c : Nat) : Bool := c == cHat || c == cDollar
+
+/-- What a keyword is documented to match (stated without reference to how the code looks it up):
+a leading `^` anchors it at the start of the name, a trailing `$` at the end; the rest `k` must be
+free of those two bytes.  `^k$` = the name is `k`; `^k` = the name starts with `k`; `k$` = the name
+ends with `k`; plain `k` = the name contains `k`.  The empty keyword matches nothing (the
+Aho-Corasick library never reports the empty word). -/
+def kwMeaning (p name : Str) : Bool :=
+  if p.isEmpty then false else
+  let a := p.head? == some cHat
+  let p1 := if a then p.tail else p
+  let z := p1.getLast? == some cDollar
+  let k := if z then p1.dropLast else p1
+  if k.any isMarker then false
+  else match a, z with
+    | true, true => name == k
+    | true, false => k.isPrefixOf name
+    | false, true => k.isSuffixOf name
+    | false, false => isInfix k name
+
 /-- `name` is the normalised name (lower case, one trailing dot removed). -/
 def patMatches (kind : Kind) (p : Pat) (name : Str) (rxHits : List Nat) : Bool :=
   match kind with
@@ -517,7 +562,7 @@ def patMatches (kind : Kind) (p : Pat) (name : Str) (rxHits : List Nat) : Bool :
   | .suffix =>
     if p.s.head? = some cDot then p.s.isSuffixOf name
     else name == p.s || (cDot :: p.s).isSuffixOf name
-  | .keyword => !p.s.isEmpty && isInfix p.s (cHat :: name ++ [cDollar])
+  | .keyword => kwMeaning p.s name
   | .regex => rxHits.contains p.rxId
   | .unknown => false
 
